@@ -137,6 +137,10 @@ def gen(rng, index, tier, prop_id=ID):
     kn = swarm_knobs(rng)
     for key in ("generators", "coroutines", "classes", "nested_classes"):
         kn[key] = pkn[key]
+    if prop_id == "C02" and kn.get("nested_funcs") and rng.random() < 0.25:
+        # transient fault inside function lookup: a callable proxy among the arguments (i.e. in a caller's locals) whose
+        # __code__ lookup raises the first few times it is asked
+        kn["flaky_p"] = 0.05
     ctx = D.Ctx(rng, spec, kn)
     script = D.gen_script(ctx, None, kn["call_depth"], top=True)
     for a in script:
@@ -290,6 +294,7 @@ def run_world(plan, lp, sample_rate=None, rng_seam=None, session=None):
     J = list(rt.J)
     D.finish_handles()
     run_world.last_aio = list(mat.aio_stats)
+    run_world.last_flaky = list(rt.FLAKY_RAISES)
     return J, logger, residue, admitted
 
 
@@ -343,7 +348,9 @@ def execute(plan):
         return {"violations": [{"clause": "C02.once", "cause": None, "site": {"exception": type(e).__name__},
                                 "msg": "exception escaped the tracing session: " + "".join(traceback.format_exception(type(e), e, e.__traceback__))[-800:]}],
                 "digest": "escaped", "nontrivial": True, "evaluated": 1}
-    V, evaluated, info, calls, comps, matched = TT.check(lp, J, logger.logs, plan["k"], get_type, prefix="C02", admitted=admitted)
+    flaky = set(run_world.last_flaky)
+    V, evaluated, info, calls, comps, matched = TT.check(lp, J, logger.logs, plan["k"], get_type, prefix="C02", admitted=admitted,
+                                                         exempt=(lambda c: c.cid in flaky) if flaky else None)
     V.extend(residue_violations("C02", lp, residue, calls, comps))
     probes = {}
     mat_stats = getattr(run_world, "last_aio", [])
@@ -371,6 +378,8 @@ def execute(plan):
         probes["async generator yielded / awaited and completed"] = 1
     if any(rec[0] == "YF" for rec in J):
         probes["generator delegating with yield from"] = 1
+    if flaky:
+        probes["function lookup hit by a transient fault (proxy in a caller's locals raised)"] = 1
     if any(rec[0] == "MU" for rec in J):
         probes["argument container mutated in place after the call started"] = 1
         mutated = {id(rec[2]) for rec in J if rec[0] == "MU"}
